@@ -55,11 +55,17 @@ func wsConformingScript(maxFrames int, lenName string) *wsScript {
 			fr.opcode, fr.fin = 10, true
 		}
 		if wsIsControl(fr.opcode) {
-			fr.n = vf.Choice("ctrl.len", 3) // 0,1,2 ... and the largest legal one
-			if fr.n == 2 {
-				fr.n = 125
+			if lenName == "small" {
+				fr.n = vf.Choice("ctrl.len", 2)
+			} else {
+				fr.n = vf.Choice("ctrl.len", 3) // 0,1 ... and the largest legal one
+				if fr.n == 2 {
+					fr.n = 125
+				}
 			}
 			sc.nctrl++
+		} else if lenName == "small" {
+			fr.n = 2 * vf.Choice("len.small", 2) // 0 or 2: lengths are not what this script is about
 		} else {
 			fr.n = wsPayloadLen(lenName, true)
 		}
@@ -71,12 +77,18 @@ func wsConformingScript(maxFrames int, lenName string) *wsScript {
 				sc.nmsg++
 			}
 		}
-		sc.wire = wsEncode(sc.wire, fr)
 		sc.n++
 	}
 	vf.Assume(!inMsg)
 	vf.Assume(sc.n > 0)
 	return sc
+}
+
+func (sc *wsScript) encode() {
+	sc.wire = nil
+	for i := 0; i < sc.n; i++ {
+		sc.wire = wsEncode(sc.wire, &sc.f[i])
+	}
 }
 
 func wsCheckFrame(id string, f Frame, want *wsFrame) {
@@ -90,6 +102,7 @@ func wsCheckFrame(id string, f Frame, want *wsFrame) {
 func VerifC06_Session() {
 	F := vf.Bound("frames", 3, 4)
 	sc := wsConformingScript(F, "len")
+	sc.encode()
 	t := &sonic.VerifTransport{In: sc.wire, Total: len(sc.wire), Concrete: true, MaxWSegs: 1, MaxSegs: vf.Bound("segments", 2, 4), SplitLimit: vf.Bound("split-limit", 3, 16)}
 	s := wsNewStream(t, 1<<20)
 	ctrlSeen := 0
